@@ -232,23 +232,113 @@ pub fn run(line: &str) -> Result<String, String> {
 		Ok(s) => s,
 		Err(_) => return Ok("freeze-err".into()),
 	};
-	let mut config = serde_avro_fast::de::DeserializerConfig::new(&schema);
+	Ok(run_one(&backend, max_seq, depth, &schema, &hint, &bytes))
+}
+
+/// `c11 <maxseq> <depth> <schema> <hint> <bytes> <k> <backend>*k`: one input, several back-ends
+pub fn run_c11(line: &str) -> Result<String, String> {
+	let mut r = R::new(line);
+	let _ = r.tok()?;
+	let max_seq = r.n()?;
+	let depth = r.n()?;
+	let raw = r.schema()?;
+	let hint = r.hint()?;
+	let bytes = r.xb()?;
+	let backends = r.list(|r| read_backend(r))?;
+	let schema = match build::to_schema_mut(&raw).freeze() {
+		Ok(s) => s,
+		Err(_) => return Ok("freeze-err".into()),
+	};
+	let outs: Vec<String> = backends
+		.iter()
+		.map(|b| {
+			// a panic in one back-end must not hide the others
+			std::panic::catch_unwind(std::panic::AssertUnwindSafe(|| run_one(b, max_seq, depth, &schema, &hint, &bytes)))
+				.unwrap_or_else(|_| "panic".into())
+		})
+		.collect();
+	Ok(outs.join(" ; "))
+}
+
+pub fn generate_c11(seed: u64, n: usize, emit: &mut dyn FnMut(String)) {
+	let mut rng = rng_from(seed, "c11");
+	for i in 0..n {
+		let max_nodes = if i % 10 == 0 { 24 } else { 10 };
+		let schema = SchemaGen::new(&mut rng, max_nodes, false).gen_root();
+		let mut bytes = vec![];
+		DatumGen { rng: &mut rng, schema: &schema, fancy_layout: true, nonminimal: 0.15 }.gen(0, 0, &mut bytes);
+		let mut hint = shape_hint(&mut rng, &schema, 0, 0, 0.05);
+		if rng.gen_bool(0.3) {
+			hint = Hint::Any;
+		}
+		if rng.gen_bool(0.3) {
+			bytes.extend_from_slice(&[0xAA, 0x55, 0x01]);
+		}
+		let mut hostile = false;
+		if rng.gen_bool(0.3) && !bytes.is_empty() {
+			hostile = true;
+			match rng.gen_range(0..3) {
+				0 => {
+					let k = rng.gen_range(0..bytes.len());
+					bytes.truncate(k);
+				}
+				1 => {
+					let k = rng.gen_range(0..bytes.len());
+					bytes[k] ^= 1 << rng.gen_range(0..8);
+				}
+				_ => {
+					let k = rng.gen_range(0..bytes.len());
+					bytes[k] = *[0u8, 1, 0x7f, 0x80, 0xff].choose(&mut rng).unwrap();
+				}
+			}
+		}
+		let max_seq = if hostile { 1000 } else { 1_000_000_000 };
+		let mut backends = vec![Backend::Slice];
+		// every constant chunk size 1..len (bounded), plus irregular schedules
+		for c in 1..=bytes.len().min(16) {
+			backends.push(Backend::Reader { last: c, sched: vec![], max_alloc: 512 * 1024 * 1024 });
+		}
+		for _ in 0..4 {
+			let mut b = random_backend(&mut rng, bytes.len());
+			if let Backend::Reader { max_alloc, .. } = &mut b {
+				*max_alloc = 512 * 1024 * 1024;
+			}
+			backends.push(b);
+		}
+		let mut w = W::default();
+		w.t("c11").n(max_seq).n(64).schema(&schema).hint(&hint).xb(&bytes).n(backends.len());
+		for b in &backends {
+			write_backend(&mut w, b);
+		}
+		emit(w.s);
+	}
+}
+
+pub fn run_one(
+	backend: &Backend,
+	max_seq: usize,
+	depth: usize,
+	schema: &serde_avro_fast::Schema,
+	hint: &Hint,
+	bytes: &[u8],
+) -> String {
+	let mut config = serde_avro_fast::de::DeserializerConfig::new(schema);
 	config.max_seq_size = max_seq;
 	config.allowed_depth = depth;
-	Ok(match backend {
+	match backend.clone() {
 		Backend::Slice => {
 			let mut st = serde_avro_fast::de::DeserializerState::with_config(
-				serde_avro_fast::de::read::SliceRead::new(&bytes),
+				serde_avro_fast::de::read::SliceRead::new(bytes),
 				config,
 			);
-			let res = HS(&hint).deserialize(st.deserializer());
+			let res = HS(hint).deserialize(st.deserializer());
 			let mut rd = st.into_reader();
 			let left = std::io::BufRead::fill_buf(&mut rd).map(|b| b.len()).unwrap_or(0);
 			fmt_result(res, left)
 		}
 		Backend::Reader { last, sched, max_alloc } => {
 			let cr = ChunkReader {
-				data: bytes.clone(),
+				data: bytes.to_vec(),
 				pos: 0,
 				avail: 0,
 				sched: sched.into_iter().collect(),
@@ -257,9 +347,9 @@ pub fn run(line: &str) -> Result<String, String> {
 			let mut rr = serde_avro_fast::de::read::ReaderRead::new(cr);
 			rr.max_alloc_size = max_alloc;
 			let mut st = serde_avro_fast::de::DeserializerState::with_config(rr, config);
-			let res = HS(&hint).deserialize(st.deserializer());
+			let res = HS(hint).deserialize(st.deserializer());
 			let cr = st.into_reader().into_inner();
 			fmt_result(res, cr.data.len() - cr.pos)
 		}
-	})
+	}
 }
